@@ -103,6 +103,7 @@ def evaluate(text):
                 "md012": "\n\n\n" in "\n" + text,
                 "md013": any(len(l) > 5 for l in m.lines),
                 "md022": "heading" in kinds,
+                "md024": "heading" in kinds,
                 "md025": "heading" in kinds,
                 "md026": "heading" in kinds,
                 "md035": "hr" in kinds,
